@@ -48,7 +48,7 @@ var c17Sources = []c17Src{
 	{name: "c2", tag: "c2", extends: "base", content: "{{extends \"base\"}}{{#block \"x\"}}C2X{{/block}}{{#block \"y\"}}C2Y{{/block}}"},
 	{name: "g", tag: "g", extends: "c1", content: "{{extends \"c1\"}}{{#block \"y\"}}GY{{/block}}"},
 	{name: "d", tag: "d.doc", doc: true},
-	{name: "plain", tag: "plain", content: "{{#if c}}yes{{else}}no{{/if}} {{#each L}}{{n}};{{/each}} {{v}}"},
+	{name: "plain", tag: "plain", content: "{{#if c}}yes{{else}}no{{/if}} {{#each L}}{{n}};{{/each}} {{v}} {{#each vl}}<{{this}}>{{/each}}"},
 	// a second definition under the name of a derived template (overrides the other block)
 	{name: "c1", tag: "c1.v2", extends: "base", content: "{{extends \"base\"}}{{#block \"y\"}}C1Y2 {{v}}{{/block}}"},
 	// a second document template whose parts have the same names as d's but carry no placeholder where d has
@@ -104,6 +104,9 @@ func c17DataV(variant int) *document.TemplateData {
 	td.SetVariable("w", "W")
 	td.SetCondition("c", true)
 	td.SetList("L", []interface{}{map[string]interface{}{"n": "1"}, map[string]interface{}{"n": "2"}})
+	// a VARIABLE that holds a list (the plain template loops over it): whatever the engine makes of it, it does
+	// not belong in the caller's Lists afterwards
+	td.SetVariable("vl", []interface{}{"p", "q"})
 	return td
 }
 
